@@ -164,3 +164,136 @@ kproof! {
     #[kani::stub(crate::huffman_encoding::HuffmanWriter::start_fixed_huffman_table, crate::huffman_encoding::verif_harness::stub_start_fixed)]
     fn k03b_fixed_plain_3() { fixed_rewrite::<3>(4, true, 2); }
 }
+
+fn write_reference_at<const W: usize>(win_src: &[u8; W], dist: u32, len: u32) {
+    let mut win: Vec<u8> = Vec::with_capacity(W + 300);
+    win.extend_from_slice(win_src);
+    let mut src = Src::<1>::any();
+    let mut rd = DeflateReader::new(&mut src);
+    rd.plain_text = win;
+    rd.write_reference(dist, len);
+    let out = rd.move_plain_text();
+    assert!(out.len() == W + len as usize);
+    let k: usize = kani::any();
+    kani::assume(k < len as usize);
+    // RFC 1951 §3.2.3: each byte is the byte `dist` positions back in the output produced so far
+    assert!(out[W + k] == out[W + k - dist as usize], "window copy differs from the RFC 1951 definition");
+    core::mem::forget(out);
+}
+const fn gen_win<const W: usize>() -> [u8; W] { let mut a = [0u8; W]; let mut i = 0; while i < W { a[i] = ((i * 7) % 251) as u8; i += 1; } a }
+static WIN_SMALL: [u8; 300] = gen_win::<300>(); // evaluated by the compiler, not by symbolic execution
+static WIN_FULL: [u8; 32768] = gen_win::<32768>();
+
+kproof! {
+    /// K03f: DeflateReader::write_reference = RFC 1951 window copy, every distance 1..=300 x every length 3..=258
+    /// (symbolic), over position-dependent content (an off-by-one in the start index is visible), incl. overlap
+    fn k03f_write_reference() {
+        let dist: u32 = kani::any();
+        let len: u32 = kani::any();
+        kani::assume(dist >= 1 && dist <= 300 && len >= 3 && len <= 258);
+        write_reference_at::<300>(&WIN_SMALL, dist, len);
+        kani::cover!(dist == 300, "whole window back");
+        kani::cover!(dist == 1 && len == 258, "run-length style overlap");
+    }
+}
+kproof! {
+    /// K03f-far: the far end of the window: distances 4096, 32767 and 32768 (concrete) x every length (symbolic);
+    /// a symbolic distance over the full 32 KiB window ran out of 20 GB
+    fn k03f_write_reference_far() {
+        let len: u32 = kani::any();
+        kani::assume(len >= 3 && len <= 258);
+        write_reference_at::<32768>(&WIN_FULL, 32768, len);
+        write_reference_at::<32768>(&WIN_FULL, 32767, len);
+        write_reference_at::<32768>(&WIN_FULL, 4096, len);
+        kani::cover!(len == 258, "longest match at maximum distance");
+    }
+}
+
+/// pack `nbits` low bits of `v` at bit position `*pos` (LSB first), advance
+fn put_bits(buf: &mut [u8; 8], pos: &mut usize, v: u32, nbits: u32) {
+    let mut i = 0;
+    while i < nbits {
+        if (v >> i) & 1 == 1 { buf[*pos >> 3] |= 1 << (*pos & 7); }
+        *pos += 1;
+        i += 1;
+    }
+}
+/// Huffman codes are packed most significant bit first
+fn put_code(buf: &mut [u8; 8], pos: &mut usize, code: u32, nbits: u32) {
+    let mut i = 0;
+    while i < nbits {
+        if (code >> (nbits - 1 - i)) & 1 == 1 { buf[*pos >> 3] |= 1 << (*pos & 7); }
+        *pos += 1;
+        i += 1;
+    }
+}
+/// RFC 1951 fixed code of a literal/length symbol: (code, bits)
+fn rfc_fixed_code(sym: u32) -> (u32, u32) {
+    if sym <= 143 { (0b00110000 + sym, 8) } else if sym <= 255 { (0b110010000 + (sym - 144), 9) } else if sym <= 279 { (sym - 256, 7) } else { (0b11000000 + (sym - 280), 8) }
+}
+
+/// one reference token with CONCRETE length and distance codes (so every bit position is concrete) and SYMBOLIC
+/// extra bits, then end-of-block: the real decode_block must return base + extra for both, flag 284+31,
+/// and consume exactly the bytes written.  Concrete layout keeps BitReader's state concrete (see DESIGN §1.2).
+fn fixed_reader_code(lcode: u32, dcode: u32) {
+    let lx = RFC_LEN_EXTRA[lcode as usize] as u32;
+    let dx = RFC_DIST_EXTRA[dcode as usize] as u32;
+    let le: u32 = kani::any();
+    let de: u32 = kani::any();
+    kani::assume(le < (1u32 << lx) && de < (1u32 << dx));
+    let last: bool = true; // concrete: a symbolic first byte would make the block type symbolic for symbolic execution
+    let mut buf = [0u8; 8];
+    let mut pos = 0usize;
+    put_bits(&mut buf, &mut pos, last as u32, 1);
+    put_bits(&mut buf, &mut pos, 1, 2);
+    let (c, n) = rfc_fixed_code(257 + lcode);
+    put_code(&mut buf, &mut pos, c, n);
+    put_bits(&mut buf, &mut pos, le, lx);
+    put_code(&mut buf, &mut pos, dcode, 5);
+    put_bits(&mut buf, &mut pos, de, dx);
+    put_code(&mut buf, &mut pos, 0, 7); // end of block
+    let nbytes = (pos + 7) / 8;
+    let mut src = Src::<8> { data: buf, pos: 0, len: 8 };
+    let mut rd = DeflateReader::new(&mut src);
+    rd.plain_text = vec![0u8; 32768];
+    let mut l = false;
+    let r = rd.read_block(&mut l);
+    assert!(r.is_ok(), "a well-formed fixed block was rejected");
+    let blk = r.unwrap();
+    let _pad = rd.read_eof_padding();
+    drop(rd);
+    assert!(l == last);
+    assert!(src.pos == nbytes, "consumed length differs from the RFC reading");
+    assert!(blk.tokens.len() == 1);
+    match blk.tokens[0] {
+        PreflateToken::Reference(t) => {
+            assert!(t.len() == RFC_LEN_BASE[lcode as usize] as u32 + le, "length differs from RFC 1951 base + extra");
+            assert!(t.dist() == RFC_DIST_BASE[dcode as usize] as u32 + de, "distance differs from RFC 1951 base + extra");
+            assert!(t.get_irregular258() == (lcode == 27 && le == 31), "irregular-258 flag wrong");
+        }
+        _ => assert!(false, "reference decoded as literal"),
+    }
+    core::mem::forget(blk);
+}
+macro_rules! k03g { ($(#[$m:meta])* fn $n:ident() $b:block) => { kproof! {
+    $(#[$m])*
+    #[kani::stub(crate::huffman_encoding::HuffmanReader::create_fixed, crate::huffman_encoding::verif_harness::stub_create_fixed)]
+    #[kani::stub(crate::deflate_reader::DeflateReader::write_reference, stub_write_reference)]
+    fn $n() $b
+} } }
+fn len_codes(from: u32, to: u32) { let mut lc = from; while lc < to { fixed_reader_code(lc, 0); lc += 1; } kani::cover!(true, "reached"); }
+fn dist_codes(from: u32, to: u32) { let mut dc = from; while dc < to { fixed_reader_code(0, dc); dc += 1; } kani::cover!(true, "reached"); }
+k03g! {
+    /// K03g: length codes 281..=285 (incl. 284 with extra 31 = irregular 258, and 285) x every extra-bit value
+    fn k03g_fixed_reader_len_24_28() { len_codes(24, 29); }
+}
+k03g! { fn k03g_fixed_reader_len_0_7() { len_codes(0, 8); } }
+k03g! { fn k03g_fixed_reader_len_8_15() { len_codes(8, 16); } }
+k03g! { fn k03g_fixed_reader_len_16_23() { len_codes(16, 24); } }
+k03g! {
+    /// K03g': distance codes 24..=29 (the 11..13 extra-bit codes) x every extra-bit value
+    fn k03g_fixed_reader_dist_24_29() { dist_codes(24, 30); }
+}
+k03g! { fn k03g_fixed_reader_dist_0_7() { dist_codes(0, 8); } }
+k03g! { fn k03g_fixed_reader_dist_8_15() { dist_codes(8, 16); } }
+k03g! { fn k03g_fixed_reader_dist_16_23() { dist_codes(16, 24); } }
